@@ -17,7 +17,7 @@ REG_MODULE = TR
 # freshly built replacement (confirmed by reading)
 IDENTITY_GUARDS = {
     TR + ".values.ReplaceStringTransformation.apply_string_value": {
-        "fresh": ("SigmaString(postprocessed_backslashes)", "SigmaString(postprocessed_backslashes).insert_placeholders()"),
+        "fresh": (),  # returns that build a string from the printed/replaced text (recognised by constructor + argument below)
         "guards": [("self.re.search(sigma_string_plain) is None", False)],
         "or_guard": ("self.skip_special", True),  # the part-wise branch maps string parts only and keeps specials
         "why": "a regular expression that matches nothing must leave the value as it is; printing and parsing it again is only an identity if the plain form is re-parsable (C05.R2), which it is not for a backslash before a wildcard",
@@ -48,6 +48,9 @@ def run(ctx) -> None:
     r6_rebuild_sites(ctx)
     r7_one_to_many(ctx)
     r8_string_tables(ctx)
+    r9_string_class_kept(ctx)
+    r10_expansions_descended(ctx)
+    r11_nested_pipeline_context(ctx)
 
 
 def _item_param(f: FuncInfo) -> Optional[str]:
@@ -114,7 +117,7 @@ def r1_identity(ctx) -> None:
     if n_impl < 4:
         raise AnalysisError(f"only {n_impl} apply_detection_item implementations found (≥4 confirmed)")
     # ValueTransformation.apply_detection_item: passes the value through when apply_value returns None
-    f = prog.func(TB + ".ValueTransformation.apply_detection_item")
+    f = prog.func(TB + ".ValueTransformation._apply_values") if prog.has_func(TB + ".ValueTransformation._apply_values") else prog.func(TB + ".ValueTransformation.apply_detection_item")
     ok = False
     for n in walk_no_nested(f.node):
         if isinstance(n, ast.Expr) and unparse(n) == "results.append(value)":
@@ -122,7 +125,8 @@ def r1_identity(ctx) -> None:
             if ("res is None", True) in gs:
                 ok = True
     mods = [n for n in walk_no_nested(f.node) if isinstance(n, ast.Assign) and unparse(n.targets[0]) == "modified" and isinstance(n.value, ast.Constant) and n.value.value is True]
-    mod_ok = all(("res is None", False) in atomic_guards(guards_at(prog, f, n)) for n in mods) and len(mods) >= 1
+    # modified only for a returned value — or for an expansion whose members were modified by the same routine (recursion)
+    mod_ok = all(("res is None", False) in atomic_guards(guards_at(prog, f, n)) or ("expanded_modified", True) in atomic_guards(guards_at(prog, f, n)) for n in mods) and len(mods) >= 1
     if ok and mod_ok:
         r.ok("C12.R1", f.qual, "apply_value() → None keeps the value and does not count as modification", f.loc)
     else:
@@ -135,7 +139,7 @@ def r1_identity(ctx) -> None:
         for x in rets:
             v = unparse(x.value)
             if spec["fresh"] is not None and v not in spec["fresh"]:
-                if not any(isinstance(c, ast.Call) and call_name(c).split(".")[-1] in ("SigmaString",) and any("str(" in unparse(a) or "plain" in unparse(a) or "replaced" in unparse(a) or "postprocessed" in unparse(a) for a in c.args) for c in ast.walk(x.value)):
+                if not any(isinstance(c, ast.Call) and call_name(c).split(".")[-1] in ("SigmaString", "SigmaCasedString", "__class__") and any("str(" in unparse(a) or "plain" in unparse(a) or "replaced" in unparse(a) or "postprocessed" in unparse(a) for a in c.args) for c in ast.walk(x.value)):
                     continue
             if v in ("val",):
                 continue
@@ -412,3 +416,125 @@ def r8_string_tables(ctx) -> None:
     else:
         r.ok("C12.R8", g.qual, f"{n} cases (tag spellings, separators, wildcards, length fallback): tag normalised to upper case, unknown algorithms dropped", g.loc)
     r.floor("C12.R8", 2)
+
+
+def r9_string_class_kept(ctx) -> None:
+    """A string transformation is a source-level rewrite of the value: `f|cased: Foo` stays a case-sensitive match."""
+    r, prog = ctx.r, ctx.prog
+    r.rule("C12.R9", "string transformations keep the class of the string: no apply_string_value() returns a value built with the bare SigmaString constructor from its argument's text (val.__class__(…), map_parts and the placeholder routines keep the class)")
+    n = 0
+    for q, f in sorted(prog.funcs.items()):
+        if f.name != "apply_string_value" or not f.module.name.startswith("sigma.processing.transformations"):
+            continue
+        for rt in (x for x in walk_no_nested(f.node) if isinstance(x, ast.Return) and x.value is not None):
+            for c in (x for x in ast.walk(rt.value) if isinstance(x, ast.Call)):
+                nm = call_name(c).split(".")[-1]
+                if nm not in ("SigmaString", "SigmaCasedString", "__class__"):
+                    continue
+                n += 1
+                loc = f"{f.module.relpath}:{c.lineno}"
+                if nm == "__class__":
+                    r.ok("C12.R9", q, f"{short(c, 70)}: result has the class of the value", loc)
+                else:
+                    r.violation("C12.R9", q, short(rt, 110), f"the result is built as a plain {nm}: for a case-sensitive value (`f|cased: FooBar`) the case-sensitive match is lost after the transformation (f casematch \"…\" becomes f=\"…\") — the rule matches more than its rewrite says", loc)
+    r.analysed["C12.string_rebuild_returns"] = n
+    r.floor("C12.R9", 3)
+
+
+def r10_expansions_descended(ctx) -> None:
+    """windash / base64offset turn one value into a SigmaExpansion of alternatives; a value transformation applies to them too."""
+    from ..tabulate import Interp, Raised
+    r, prog = ctx.r, ctx.prog
+    r.rule("C12.R10", "value transformations reach the alternatives inside a SigmaExpansion: ValueTransformation.apply_detection_item, interpreted (sa.tabulate) on values [string, expansion(string, number), number] with a stand-in apply_value that upper-cases strings and declines everything else, rewrites the strings inside the expansion and keeps the expansion together")
+    f = prog.func(TB + ".ValueTransformation.apply_detection_item")
+    helpers = {nm: m for nm, m in prog.cls(TB + ".ValueTransformation").methods.items() if nm.startswith("_") and not nm.startswith("__")}
+
+    class _T:
+        pass
+
+    class _Str(_T):
+        def __init__(self, t):
+            self.t = t
+
+    class _Num(_T):
+        def __init__(self, n):
+            self.n = n
+
+    class _Exp(_T):
+        def __init__(self, values):
+            self.values = values
+
+    me = type("VT", (), {})()
+    me.value_types = _T
+    me.apply_value = lambda field, v: _Str(v.t.upper()) if isinstance(v, _Str) else None
+    item = type("Item", (), {})()
+    item.field = "f"
+    n1, n2 = _Num(1), _Num(2)
+    item.value = [_Str("a"), _Exp([_Str("b"), n1]), n2]
+    it = Interp({"self": me, "detection_item": item, "SigmaExpansion": _Exp, "SigmaType": _T, "Iterable": (list, tuple)}, max_steps=5000)
+    for nm, m in helpers.items():
+        setattr(me, nm, (lambda mm: (lambda *a, **k: Interp({**it.env, "self": me}, 5000)._make_function(mm.node)(me, *a, **k)))(m))
+    try:
+        out = it.call(f.node.body)
+    except Raised as ex:
+        r.violation("C12.R10", f.qual, "apply_detection_item on [string, expansion, number]", f"raises {ex}", f.loc)
+        r.floor("C12.R10", 1)
+        return
+    def show(v):
+        return v.t if isinstance(v, _Str) else (v.n if isinstance(v, _Num) else [show(x) for x in v.values])
+    got = [show(v) for v in item.value]
+    want = ["A", ["B", 1], 2]
+    if out is item and got == want:
+        r.ok("C12.R10", f.qual, "strings inside the expansion are transformed, the expansion and the other values are kept", f.loc)
+    else:
+        r.violation("C12.R10", f.qual, f"values after the transformation: {got} (returned {'the item' if out is item else out!r})",
+                    f"specified {want}: the alternatives a modifier expanded a value into are skipped — `CommandLine|windash|contains: -Foo` under a `case`/`replace_string`/placeholder transformation converts as if there were no pipeline", f.loc)
+    r.floor("C12.R10", 1)
+
+
+def r11_nested_pipeline_context(ctx) -> None:
+    """`nest` is documented as its items written flat: they use the variables and the state of the enclosing pipeline."""
+    from ..tabulate import Interp, Raised
+    r, prog = ctx.r, ctx.prog
+    r.rule("C12.R11", "nested items run in the context of the enclosing pipeline: NestedProcessingTransformation.apply, interpreted with stand-in pipelines, runs the nested pipeline with the enclosing pipeline's variables and with its state of this rule")
+    f = prog.func(TR + ".meta.NestedProcessingTransformation.apply")
+    seen = {}
+
+    class _Track:
+        def merge(self, o):
+            return None
+
+    class _Inner:
+        def __init__(self):
+            self.vars, self.applied, self.applied_ids, self.field_name_applied_ids, self.field_mappings, self.state = {}, [], set(), {}, _Track(), {}
+
+        def apply(self, rule, state=None):
+            seen["vars"] = dict(self.vars)
+            seen["state"] = dict(state) if state is not None else None
+            self.state = dict(state or {})
+            return rule
+
+    class _Outer:
+        def __init__(self):
+            self.vars, self.applied, self.applied_ids, self.field_name_applied_ids, self.field_mappings, self.state = {"var": ["a", "b"]}, [], set(), {}, _Track(), {"k": "v"}
+
+    me = type("N", (), {})()
+    me._nested_pipeline, me._pipeline = _Inner(), _Outer()
+    base = type("B", (), {"apply": lambda self_, rr: None})()
+    it = Interp({"self": me, "rule": object(), "super": lambda: base, "SigmaConfigurationError": type("SigmaConfigurationError", (Exception,), {})}, max_steps=2000)
+    try:
+        it.call(f.node.body)
+    except Raised as ex:
+        r.violation("C12.R11", f.qual, "apply() with an enclosing pipeline", f"raises {ex}", f.loc)
+        r.floor("C12.R11", 1)
+        return
+    problems = []
+    if seen.get("vars") != {"var": ["a", "b"]}:
+        problems.append(f"the nested pipeline runs with vars {seen.get('vars')}: a nested value_placeholders item does not find the variables of the pipeline it is written in")
+    if seen.get("state") != {"k": "v"}:
+        problems.append(f"the nested pipeline starts with state {seen.get('state')}: a nested item conditioned on processing state set by an earlier item never matches")
+    if problems:
+        r.violation("C12.R11", f.qual, "context handed to the nested pipeline", "; ".join(problems), f.loc)
+    else:
+        r.ok("C12.R11", f.qual, "nested pipeline gets the enclosing pipeline's vars and a start state equal to its state of this rule", f.loc)
+    r.floor("C12.R11", 1)
